@@ -371,8 +371,8 @@ func allSplits(n int) [][]int {
 }
 
 func Run(cfg fw.Config, rec *fw.Rec) {
-	rec.Rule = "random specs (1-5 nodes incl. cyclic / non-terminating, failing and bad-return actions, guards, @var and missing targets, all error settings; native and ECMAScript) x start states x sequences of 0-8 messages with unique ids (objects and the scalars false, 0, \"\") x limits {0,1,2,3,5,30,60,100,-1} x breakpoints; each Walked is checked as a history; every split of sequences of <= 6 messages is compared with the single Walk; non-trivial = walk with >= 2 strides; distinct by canonical (spec,state,messages,limit,breakpoint)"
-	rec.Required = []string{"stop_done", "stop_limited", "stop_breakpoint", "walks_consuming_several", "done_with_dropped_messages", "splits_compared", "ecma_walks", "scalar_messages"}
+	rec.Rule = "random specs (1-5 nodes incl. cyclic / non-terminating, failing and bad-return actions, guards, @var and missing targets, all error settings, nodes that have an action and message branching; native and ECMAScript) x start states x sequences of 0-8 messages with unique ids (objects and the scalars false, 0, \"\") x limits {0,1,2,3,5,30,60,100,-1} x breakpoints; each Walked is checked as a history; every split of sequences of <= 6 messages is compared with the single Walk; non-trivial = walk with >= 2 strides; distinct by canonical (spec,state,messages,limit,breakpoint)"
+	rec.Required = []string{"stop_done", "stop_limited", "stop_breakpoint", "walks_consuming_several", "done_with_dropped_messages", "splits_compared", "ecma_walks", "scalar_messages", "specs_with_action_and_message_branching_node"}
 	rec.Assume = []string{"actions and guards are deterministic; guarded branches have at most one candidate", "stride-level agreement relies on ref.Step (see C04)"}
 	n := cfg.Pick(30000, 600000)
 	limits := []int{0, 1, 2, 3, 5, 30, 30, 60, 100, -1}
@@ -380,7 +380,7 @@ func Run(cfg fw.Config, rec *fw.Rec) {
 		r := cfg.Rng("c05", i)
 		u := &gen.Uid{Prefix: fmt.Sprintf("w%d_", i)}
 		native := i%16 != 0
-		a := gen.GenSpec(r, gen.SpecOpts{MaxNodes: 5, Prog: gen.ProgOpts{Fail: true, BadRet: true, Emit: true}}, u)
+		a := gen.GenSpec(r, gen.SpecOpts{MaxNodes: 5, ActionWithMessageBranching: true, Prog: gen.ProgOpts{Fail: true, BadRet: true, Emit: true}}, u)
 		spec, err := a.Compiled(native, ref.NativeNilErr)
 		if err != nil {
 			rec.Bucket("compile_error")
@@ -424,6 +424,12 @@ func Run(cfg fw.Config, rec *fw.Rec) {
 		}
 		if !native {
 			rec.Bucket("ecma_walks")
+		}
+		for _, nd := range a.Nodes {
+			if nd.Action != nil && nd.Branching != nil && nd.Branching.Type == "message" {
+				rec.Bucket("specs_with_action_and_message_branching_node")
+				break
+			}
 		}
 		if len(walked.Strides) >= 2 {
 			rec.Nontrivial(fw.Canon(wc))
